@@ -78,7 +78,14 @@ let install register get =
       | 'T' -> CEvT (sidn, nat_of_int (match suf with "o" -> 0 | "l" -> 1 | _ -> 2))
       | _ -> failwith ("bad event " ^ e)) (split_events (get kv "tr")) in
     match caccept_trace (nat_of_int !maxsid) evs with
-    | Inl _ -> "accepted=1"
+    | Inl cands ->
+      (* settled=1: every call of the run has returned (none was cancelled): in some explanation of the trace every caller that
+         registered a request must have taken its result out of its channel *)
+      if (try get kv "settled" with _ -> "0") = "1" then begin
+        let unfinished (c, _) = List.length (List.filter (fun (_, st) -> match st with CDone (_, _) | CIdle -> false | _ -> true) c.callers) in
+        let best = List.fold_left (fun a c -> Stdlib.min a (unfinished c)) Stdlib.max_int cands in
+        Printf.sprintf "accepted=1 unfinished=%d" (if cands = [] then 0 else best)
+      end else "accepted=1"
     | Inr i -> Printf.sprintf "accepted=0 at=%d" (int_of_nat i));
   register "altrace" (fun kv -> guarded get kv @@ fun kv ->
     let evs = List.map (fun e ->
